@@ -16,8 +16,8 @@
 //@h sip_3[0-9]$ : unwind=41
 //@h sip_40$ : unwind=42
 //@h sip_2[56][0-9]$ : unwind=266 timeout_thorough=3000
-//@h sipname_1[0-9]$ : unwind=21
-//@h sipname_2[0-9]$ : unwind=31
+//@h sipname_1[0-9]$ : unwind=21 timeout_thorough=2400
+//@h sipname_2[0-9]$ : unwind=31 timeout_thorough=2400
 //@h sipname_3[0-9]$ : unwind=41
 //@h names : solver=minisat unwind=70
 #include "vrt.h"
@@ -80,7 +80,7 @@ HS(ht, 24) HS(ht, 25) HS(ht, 26) HS(ht, 27) HS(ht, 28) HS(ht, 29) HS(ht, 30) HS(
 HS(ht, 35) HS(ht, 36) HS(ht, 37) HS(ht, 38) HS(ht, 39) HS(ht, 40)
 HS(ht, 255) HS(ht, 256) HS(ht, 257) HS(ht, 263) HS(ht, 264)
 #define HN(tier, N) extern "C" void tier##_sipname_##N(void) { sip_name<N>(); }
-HN(hq, 1) HN(hq, 2) HN(ht, 6) HN(hq, 8) HN(hq, 9) HN(ht, 12) HN(ht, 16) HN(ht, 17) HN(ht, 24) HN(ht, 31)
+HN(hq, 1) HN(hq, 2) HN(ht, 6) HN(hq, 8) HN(hq, 9) HN(ht, 12) HN(ht, 16) HN(ht, 17) HN(ht, 24) HN(ht, 25)
 
 // (3) declared names.  The table hash is observed where a peer would see it:
 // on the wire, as the integer following the table prefix byte.
